@@ -7,6 +7,8 @@ CONSTANTS
   CallsPer = 3
   SwapLast = FALSE
   RestoreOnFail = FALSE
+  Peekers = {}
+  AtomicAnalysis = TRUE
   UseLock = FALSE
 PROPERTY AnswersCorrect
 PROPERTY RecoversAfterRemoval
